@@ -14,7 +14,12 @@
 
 package markers
 
-import i "github.com/cockroachdb/redact/interfaces"
+import (
+	"bytes"
+	"strings"
+
+	i "github.com/cockroachdb/redact/interfaces"
+)
 
 // RedactableString is a string that contains a mix of safe and unsafe
 // bits of data, but where it is known that unsafe bits are enclosed
@@ -30,7 +35,14 @@ type RedactableString string
 // RedactableString. This returns an unsafe string where all safe and
 // unsafe bits are mixed together.
 func (s RedactableString) StripMarkers() string {
-	return ReStripMarkers.ReplaceAllString(string(s), "")
+	r := ReStripMarkers.ReplaceAllString(string(s), "")
+	// In a string that is not valid UTF-8, removing a marker can join the
+	// bytes of a truncated sequence before it with the bytes after it
+	// into a new marker; strip again until none is left.
+	for strings.Contains(r, StartS) || strings.Contains(r, EndS) {
+		r = ReStripMarkers.ReplaceAllString(r, "")
+	}
+	return r
 }
 
 // Redact replaces all occurrences of unsafe substrings by the
@@ -62,7 +74,12 @@ type RedactableBytes []byte
 // RedactableBytes. This returns an unsafe string where all safe and
 // unsafe bits are mixed together.
 func (s RedactableBytes) StripMarkers() []byte {
-	return ReStripMarkers.ReplaceAll([]byte(s), nil)
+	r := ReStripMarkers.ReplaceAll([]byte(s), nil)
+	// See the comment in RedactableString.StripMarkers.
+	for bytes.Contains(r, StartBytes) || bytes.Contains(r, EndBytes) {
+		r = ReStripMarkers.ReplaceAll(r, nil)
+	}
+	return r
 }
 
 // Redact replaces all occurrences of unsafe substrings by the
